@@ -26,6 +26,7 @@ FACTORS = [1, 2, 10, 0.1, 0.001, 0.5, -1, -0.25, 3, 1 / 3, 2.5e-7, 1e-9, -3e-8, 
 SDO_TYPES = codec.INT_TYPES
 PDO_TYPES = ["UNSIGNED8", "INTEGER16", "UNSIGNED32", "INTEGER32"]
 # widths other than 32 for slices with an open end (the end is the variable's own top bit)
+OPEN_TYPES_ALL = ["UNSIGNED8", "UNSIGNED16", "UNSIGNED24", "UNSIGNED32", "UNSIGNED40", "UNSIGNED48", "UNSIGNED56", "UNSIGNED64"]
 OPEN_TYPES = {"sdo": ["UNSIGNED8", "UNSIGNED16", "UNSIGNED24", "UNSIGNED40", "UNSIGNED64"], "pdo": ["UNSIGNED8", "UNSIGNED16"]}
 
 
@@ -45,7 +46,7 @@ def cases(tier, seed):
         out.append({"part": "desc", "transport": tr})
         for lo in range(32):
             out.append({"part": "bits", "lo": lo, "transport": tr})
-        for t in OPEN_TYPES[tr]:
+        for t in (OPEN_TYPES[tr] if tier == "quick" else (OPEN_TYPES_ALL if tr == "sdo" else OPEN_TYPES[tr])):
             out.append({"part": "bits-open", "type": t, "transport": tr})
     k = seed % len(out)
     return out[k:] + out[:k]
